@@ -6,6 +6,51 @@ PURE_OBS = None  # compare every line
 NOT_APPLICABLE = {}
 
 PROPS = {
+    'C07': {
+        'families': [('corpus:', 0, 0), ('ep:hostile', 2500, 80000), ('ep:mixed', 500, 20000), ('ep:limits', 300, 10000),
+                     ('hs:server', 1200, 40000), ('hs:client', 1200, 40000), ('tp', 150, 4000)],
+        'rule': 'random, mutated-valid and boundary-crafted byte streams x per-call transport outcomes {n bytes, 0, WouldBlock, Interrupted, reset, '
+                'other error} on read, write and flush x roles x finite limits, sockets and both handshakes; every call under catch_unwind, '
+                'debug assertions and overflow checks on, a transport-call watchdog against spinning',
+        'assumptions': ['configurations with max_frame_size = None are outside the property (finite limits): an announced 2^63 length reaches reserve',
+                        'real hangs / aborts inside dependencies are runtime behaviour: watched on the real crate (partial)'],
+        'trusted_base': [],
+        'level_text': 'Kernel-checked: the header parser never panics; construction panics iff max <= write_buffer_size (documented); for every reachable '
+                      'state no write-side call panics; reading never panics: every expect/unwrap/unreachable site is unreachable (collector invariant, '
+                      'header present after split, do_close never in Terminated) and the loops have enough fuel (each continuing iteration consumes a '
+                      'script event / at least 2 stream bytes); every call makes a bounded number of transport calls (explicit bound). '
+                      'D8 (handshake assert on a zero-length write) was found here and fixed.',
+        'level_note': 'Partial for wall-clock hangs and dependency aborts. The handshake no-panic part is covered by the machine model '
+                      '(Round.panic only for an empty write buffer, never constructed) and the correspondence.',
+    },
+    'C09': {
+        'families': [('corpus:defects', 0, 0), ('ep:sizes', 400, 8000), ('ep:mixed', 800, 20000), ('ep:ping', 500, 10000), ('ep:maskpaths', 1, 1),
+                     ('pure:hformat', 500, 20000)],
+        'rule': 'all message kinds, payload sizes 0..70000 around the encoding boundaries, both roles, histories that trigger automatic pongs and '
+                'close replies; every byte the real endpoint wrote is re-parsed by the independent RFC header reader',
+        'assumptions': ['"fresh unpredictable key" is a property of rand: the model takes keys from an oracle (partial); the translator checks nothing '
+                        'about rand; the hook only queues keys for the harness',
+                        'raw Message::Frame writes are excluded (escape hatch)'],
+        'trusted_base': [],
+        'level_text': 'Kernel-checked for every reachable state: every frame ever queued has FIN set, RSV clear, one of the five opcodes and is masked iff '
+                      'client; the role never changes; the accepted bytes are a prefix of the concatenated encodings, each of which decodes to its own '
+                      'header in the shortest length form followed by payload XOR key (client) or the payload (server); a client takes each key from '
+                      'the mask source in order; automatic pongs and close replies carry at most 125 bytes.',
+        'level_note': 'Partial for key unpredictability.',
+    },
+    'C13': {
+        'families': [('corpus:defects', 0, 0), ('ep:backpressure', 2500, 80000), ('ep:close', 800, 20000), ('tp', 150, 4000)],
+        'rule': 'histories x WouldBlock windows on write/flush x max_write_buffer_size from just above the largest frame to unlimited x write_buffer_size',
+        'assumptions': ['max_write_buffer_size holds the largest single frame of the history when empty (property quantifier; hypothesis hfit)'],
+        'trusted_base': [],
+        'level_text': 'Kernel-checked for every reachable state: after close() on an open connection, whatever it returned, the Close frame is pending '
+                      '(slot or queued); likewise the reply once a Close was delivered; a pending Close is never dropped by any call under any transport '
+                      'behaviour; queued = buffered or accepted, in order; one successful flush delivers the pending frame, drains the buffer and '
+                      'flushes the transport; read retries whenever something is pending or unflushed; ConnectionClosed is never reported with a Close '
+                      'unsent on a live transport; a pending pong is only replaced by a newer pong or a Close. '
+                      'D2, D3, D7 were genuine violations found here and fixed.',
+        'level_note': 'The first statement of pong_never_dropped was proved false (a user pong replaces the pending one) and corrected.',
+    },
     'C02': {
         'families': [('ep:codec', 2500, 80000), ('ep:utf8', 500, 10000), ('ep:limits', 500, 10000)],
         'rule': 'well-formed frame sequences with arbitrary fragmentation and interleaved control frames, and the same with a single rule '
